@@ -3,6 +3,6 @@
 for id in "$@"; do
   pid=${id%%-*}
   cp /verif/seeded/$id/check_output.txt /verif/seeded/$id/check_output_first.txt 2>/dev/null
-  /verif/lib/mutest.py $pid /tmp/seed-$id > /verif/seeded/$id/check_output.txt 2>&1
+  MUTEST_SNAPSHOT=1 /verif/lib/mutest.py $pid /tmp/seed-$id > /verif/seeded/$id/check_output.txt 2>&1
   echo "$(date +%H:%M) re-run $id: $(grep -h '^VIOLATION\|^exit\|^kind' /verif/seeded/$id/check_output.txt | tr '\n' ' ' | cut -c1-200)" >> /verif/.build/reseed.txt
 done
